@@ -125,6 +125,21 @@ Proof.
   unfold listed. rewrite in_app_iff, !filter_In. destruct (mandatory a); cbn [Bool.eqb andb]; intuition congruence.
 Qed.
 
+(** short-only (long-only) display: everything listed has a short (long) key
+    and is shown by that key alone *)
+Theorem short_long_only p args a :
+  In a (listed p true args ++ listed p false args) ->
+  match cont p with
+  | CAll => key_text (cont p) a = key_text_all (akey a)
+  | CShort => Key.has_c (akey a) = true /\ key_text (cont p) a = [DASH; Key.kc (akey a)]
+  | CLong => Key.has_w (akey a) = true /\ key_text (cont p) a = [DASH; DASH] ++ Key.kw (akey a)
+  end.
+Proof.
+  intros H. apply listed_in in H. destruct H as [_ H]. unfold visible, has_key in H.
+  destruct (cont p); cbn [key_text]; [reflexivity| |];
+    apply andb_prop in H; destruct H as [_ H]; split; [exact H|reflexivity|exact H|reflexivity].
+Qed.
+
 (** definition order inside a section: a section is a sub-sequence of the
     definition list that keeps exactly the visible arguments of its class *)
 Theorem listed_order p mand args :
@@ -197,8 +212,10 @@ Theorem entry_first_line p w same m a :
 Proof.
   unfold entry_lines. destruct same.
   - destruct (format_lines (2 * IndentLength + m) w false (desc_copy a)) as [|l r]; cbn [attach].
-    + eexists, []. rewrite <- !app_assoc. reflexivity.
-    + eexists, r. rewrite <- !app_assoc. reflexivity.
+    + exists (spaces (m - length (key_text (cont p) a)) ++ spaces IndentLength), [].
+      reflexivity.
+    + exists (spaces (m - length (key_text (cont p) a)) ++ spaces IndentLength ++ l), r.
+      rewrite <- !app_assoc. reflexivity.
   - exists [], (attach [] (format_lines (2 * IndentLength) w true (desc_copy a))).
     rewrite app_nil_r. reflexivity.
 Qed.
@@ -418,13 +435,13 @@ Theorem eval_request f w args s s' :
   (eval_cmd f w args s CmdHelpShort = Ok s' -> cont (hp s') = CShort) /\
   (eval_cmd f w args s CmdHelpLong = Ok s' -> cont (hp s') = CLong).
 Proof.
-  unfold eval_cmd, eval_cmd_gen. repeat split;
-    try (destruct (has f hfArgHidden); [|discriminate]; intros H; inversion H; reflexivity);
-    try (destruct (has f hfArgDeprecated); [|discriminate]; intros H; inversion H; reflexivity);
-    try (destruct (has f hfUsageShort); [|discriminate]; destruct (cont (hp s)); try discriminate;
-         intros H; inversion H; reflexivity);
-    try (destruct (has f hfUsageLong); [|discriminate]; destruct (cont (hp s)); try discriminate;
-         intros H; inversion H; reflexivity).
+  unfold eval_cmd, eval_cmd_gen. split; [|split; [|split]].
+  - destruct (has f hfArgHidden); [|discriminate]. intros H; inversion H; cbn; auto.
+  - destruct (has f hfArgDeprecated); [|discriminate]. intros H; inversion H; cbn; auto.
+  - destruct (has f hfUsageShort); [|discriminate]. destruct (cont (hp s)); try discriminate.
+    intros H; inversion H; reflexivity.
+  - destruct (has f hfUsageLong); [|discriminate]. destruct (cont (hp s)); try discriminate.
+    intros H; inversion H; reflexivity.
 Qed.
 
 (** printing does not throw when every argument that prints its default
